@@ -182,6 +182,22 @@ class Woven:
         self.insert_after_tok(b, text, label)
         return True
 
+    def insert_after_stmt(self, head, text, nth='only', label=None):
+        """Insert after the `;` that ends the statement starting with the token pattern `head` (the rest of the
+        statement may be spelled anyhow: hints anchored this way survive edits to the arguments)."""
+        a, b = self._find(head, nth)
+        i = b + 1
+        while True:
+            t = self.ct[i]
+            if t[0] == 'p' and t[1] in '([{':
+                i = match_close(self.ct, i)
+            elif t[0] == 'p' and t[1] == ';':
+                break
+            elif i >= self.hi:
+                raise ExtractError('%s: statement starting with %r has no end' % (self.name(), head))
+            i += 1
+        self.insert_after_tok(i, text, label)
+
     def replace(self, pattern, text, rule, nth='all'):
         n = self._find(pattern, count=True)
         if n == 0:
